@@ -189,7 +189,7 @@ PROPS["C06"] = {
     "translators": ["consts"],
     "lean_targets": prop_modules("C06", extra=("JediVerif.Properties.C06b",)),
     "theorems": lambda: thms("C06", extra=(("JediVerif.Properties.C06b", "Jedi.C06"),)),
-    "streams": stream_set([("scalar", 6)], ["asm", "portable32"], ALLCFG + ["asan"], scale=4),
+    "streams": stream_set([("scalar", 6)], ["asm", "portable32"], ALLCFG + ["asan", "asm-uchar"], scale=4),
 }
 PROPS["C07"] = {
     "translators": ["consts", "tower"],
